@@ -359,7 +359,8 @@ def run(ctx):
         g = draw(gens.gap_mask(n, classes=["leading", "trailing", "lead_trail", "isolated", "none"], min_valid=need))
         idx = [i for i, v in enumerate(g["valid"]) if v]
         # the line must fit the input dtype at the VALID cells only; at edge gaps it may leave it (but not int16)
-        a = draw(st.integers(-(hi - lo) // max(idx[-1] - idx[0], 1), (hi - lo) // max(idx[-1] - idx[0], 1)))
+        amax = (hi - lo) // max(idx[-1] - idx[0], 1)
+        a = draw(st.integers(-amax, amax))
         vals_rel = [a * (i - idx[0]) for i in idx]
         b0 = draw(st.integers(lo - min(vals_rel), hi - max(vals_rel)))
         b = b0 - a * idx[0]
